@@ -27,6 +27,8 @@ CLAIMS = {
          "Kani memory model; sequences <= 3 pushes; gradual calculators' lifetime extension and moves not covered"),
  "C12": ("proof", "Postcondition of generate_state (C12 clauses 1-6) proved by Kani/CBMC on the real functions of all four modes for every u32 value of every optional field on the accuracy-free paths and the loop-free accuracy arms; attribute counts <= 2^20. Accuracy search arms (float loops) are thorough-tier / bounded.", "DESIGN.md §5 C12",
          "legacy mods only; accuracy in [0,1] non-NaN; catch provided counts <= 2^30; Kani/CBMC trusted"),
+ "C13": ("other", "Bounded stand-ins for two of the four modes: taiko (max_combo <= 6 quick, <= 12 thorough) and catch tiny droplets (counts <= 4 quick, <= 10 thorough): the generated state has the given misses, distributes all remaining objects, and its accuracy is at least as close to the requested one as that of EVERY other distribution (symbolic competitor, no enumeration), for every accuracy in [0,1] and every miss count. osu! (2-D window plus slider accuracy) and mania (5-D) are not covered.", "DESIGN.md §5 C13",
+         "IEEE doubles handled bit-precisely by CBMC; small attribute shapes only; osu and mania not covered"),
  "C14": ("proof", "Partial: passed_objects(n) limits to exactly n for every n incl. 0 and is unlimited when unset; catch's limited object counter obeys its per-call contract (Kani, all values) and by induction (Verus lemma, unbounded) counts min(n, total), monotonically and saturating; gradual values count exactly the first i objects (bounded, from C02's obligations). osu!/taiko counting closures and mania's n_objects call site are not under contract.", "DESIGN.md §5 C14",
          "the osu/taiko counting closures could not be lifted within the time; mania n_objects vs. map rewrites (Invert) not checked"),
  "C15": ("other", "Bounded stand-ins: iterator-protocol obligations (len/size_hint == remaining; next; Iterator::nth returns None when fewer than k+1 values remain; invariant preserved so exhausted stays exhausted without overflow) checked from every state of the representation invariant with the object count fixed per harness (0..3 quick, 4 thorough) and idx / k fully symbolic, for osu, catch, mania and the healthy taiko class; gradual performance nth/last/next for osu, mania, catch; F3/F4 (taiko) are known findings.", "DESIGN.md §5 C15",
@@ -45,7 +47,6 @@ NA = {
  "C04": "the claim is equality of two executions of the same float difficulty pipeline; the only code specific to it (MapOrAttrs::insert_attrs / From impls) has no arithmetic to put under contract; see DESIGN.md §5 C04",
  "C20": "Kani has no thread support and Verus would need its permission types threaded through Rc<RefCell>/Arc<RwLock> code; absence of statics and Send/Sync are type-checker facts, not deductive obligations; see DESIGN.md §5 C20",
 }
-NA["C13"] = "optimality of the accuracy-driven search is a claim about IEEE-double arithmetic over a floor/ceil window compared with every competitor; the bounded stand-in planned in DESIGN.md (taiko/catch, N<=12, ~10 min per harness) was not built in the time available and no contract within reach decides it for osu! (2-D) or mania (5-D); see DESIGN.md §5 C13"
 NOT_BUILT = "no contract obligation is registered for this property yet (not built); see DESIGN.md §5"
 
 units = registry.load()
